@@ -1,210 +1,19 @@
-import BddVerif.Core.Basic
-import BddVerif.Model.Outcome
+import BddVerif.Model.SerialBase
 import BddVerif.Gen.Consts
 /-!
-# Executable model of the serialisation code (C12, C13)
+# Executable model of the serialisation code (C12, C13) — the part that depends on the byte layout
 
-Anchors: `src/_impl_bdd/_impl_serialisation.rs` (`write_as_string`, `read_as_string`, `write_as_bytes`,
-`read_as_bytes`), `src/_impl_bdd_pointer.rs`, `src/_impl_bdd_variable.rs` (`to_le_bytes`/`from_le_bytes`),
-`src/_impl_bdd/_impl_util.rs` (`to_nodes`, `from_nodes`, `validate`), `src/_impl_bdd_valuation.rs` (`eval_in`).
-
-Conventions
-* a Rust panic (index out of bounds, `unwrap`) is the explicit outcome `Outcome.panic`; every `xs[i]` of the
-  Rust code is an `idx`/`aidx` here, so "the length test guards the index" is a theorem, not a definition;
-* a loop that might not terminate has a fuel and returns `none` (= *diverge*) when the fuel is exhausted;
-* `std::io::{Read, Write}` are scripted environments: `Reader`/`List Ev`; the helper loops of std
-  (`read_exact`, `read_to_end`/`read_to_string`, `write_all`, `write_fmt`) are modelled from their documentation;
-* `str::parse::<u16/u32>` is the decimal grammar `parseUInt`, `char::is_whitespace` the list `whiteSpace`;
-* the byte layout (`recordLen`, offsets and widths of the three fields) is taken from the regenerated
-  `Gen.recordLen` / `Gen.fieldLayout`.
-Core only (no Std, no Mathlib).
+Everything that does not mention the layout (text format, decimal grammar, UTF-8, the scripted I/O environment,
+`read_exact`/`read_to_end`/`write_all`, `from_nodes`, `validate`, `eval_in`) is in `Model/SerialBase.lean`.
+Here `write_as_bytes`/`read_as_bytes` are instantiated with the REGENERATED layout `Gen.recordLen` /
+`Gen.fieldLayout`, so a change of the Rust layout re-checks every proof about them.
 -/
 set_option linter.unusedVariables false
 
 namespace B.Serial
 open B
 
-/-! ## Partial indexing (a Rust `xs[i]`) -/
-
-def idx {α} (xs : List α) (i : Nat) : Outcome α :=
-  match xs[i]? with
-  | some x => .ok x
-  | none => .panic "index out of bounds"
-
-def aidx {α} (xs : Array α) (i : Nat) : Outcome α :=
-  match xs[i]? with
-  | some x => .ok x
-  | none => .panic "index out of bounds"
-
-/-! ## Decimal printer (`Display for u16/u32`) and parser (`FromStr for u16/u32`) -/
-
-def digitChar (d : Nat) : Char := Char.ofNat (48 + d)
-
-/-- `char::to_digit(10)`: ASCII digits only -/
-def digitVal? (c : Char) : Option Nat :=
-  if 48 ≤ c.toNat ∧ c.toNat ≤ 57 then some (c.toNat - 48) else none
-
-/-- `Display` of an unsigned integer: no sign, no leading zero, `0` for zero -/
-def showNat (k : Nat) : List Char :=
-  if k < 10 then [digitChar k] else showNat (k / 10) ++ [digitChar (k % 10)]
-termination_by k
-decreasing_by omega
-
-/-- digit loop of `from_ascii_radix` (radix 10) with `checked_mul`/`checked_add` against `max` -/
-def parseDigits (max : Nat) : Nat → List Char → Option Nat
-  | acc, [] => some acc
-  | acc, c :: cs =>
-    match digitVal? c with
-    | none => none
-    | some d => if acc * 10 + d ≤ max then parseDigits max (acc * 10 + d) cs else none
-
-/-- `from_ascii_radix` for an unsigned type: empty = error, a lone sign = error, one leading `+` is
-    dropped, a `-` is not (it is then an invalid digit), then digits only; overflow = error -/
-def parseUInt (max : Nat) (s : List Char) : Option Nat :=
-  match s with
-  | [] => none
-  | [c] => if c = '+' ∨ c = '-' then none else parseDigits max 0 [c]
-  | c :: rest => if c = '+' then parseDigits max 0 rest else parseDigits max 0 (c :: rest)
-
-def u16Max : Nat := 65535
-def u32Max : Nat := 4294967295
-
-/-! ## `char::is_whitespace` = Unicode `White_Space` -/
-
-def whiteSpace : List Nat :=
-  [0x09, 0x0A, 0x0B, 0x0C, 0x0D, 0x20, 0x85, 0xA0, 0x1680,
-   0x2000, 0x2001, 0x2002, 0x2003, 0x2004, 0x2005, 0x2006, 0x2007, 0x2008, 0x2009, 0x200A,
-   0x2028, 0x2029, 0x202F, 0x205F, 0x3000]
-
-def isWhitespace (c : Char) : Bool := whiteSpace.contains c.toNat
-
-/-! ## Text format -/
-
-/-- `str::split(sep)`: always at least one piece; `n` separators give `n + 1` pieces -/
-def splitOn (sep : Char) : List Char → List (List Char)
-  | [] => [[]]
-  | c :: cs =>
-    if c = sep then [] :: splitOn sep cs
-    else match splitOn sep cs with
-      | [] => [[c]]
-      | p :: ps => (c :: p) :: ps
-
-def liftOpt {α} (o : Option α) : Outcome α :=
-  match o with
-  | some a => .ok a
-  | none => .err "parse error"
-
-/-- one `var,low,high` record (the body of the `for` loop of `read_as_string`) -/
-def parseRecord (s : List Char) : Outcome Node :=
-  let items := splitOn ',' s
-  if items.length ≠ 3 then .err "Expected `var,low,high`" else
-  match idx items 0 with
-  | .panic m => .panic m
-  | .err m => .err m
-  | .ok i0 =>
-    match liftOpt (parseUInt u16Max i0) with
-    | .panic m => .panic m
-    | .err m => .err m
-    | .ok v =>
-      match idx items 1 with
-      | .panic m => .panic m
-      | .err m => .err m
-      | .ok i1 =>
-        match liftOpt (parseUInt u32Max i1) with
-        | .panic m => .panic m
-        | .err m => .err m
-        | .ok l =>
-          match idx items 2 with
-          | .panic m => .panic m
-          | .err m => .err m
-          | .ok i2 =>
-            match liftOpt (parseUInt u32Max i2) with
-            | .panic m => .panic m
-            | .err m => .err m
-            | .ok h => .ok ⟨v, l, h⟩
-
-def parseRecords : List (List Char) → Arr → Outcome Arr
-  | [], acc => .ok acc
-  | p :: ps, acc =>
-    match parseRecord p with
-    | .ok nd => parseRecords ps (acc.push nd)
-    | .err m => .err m
-    | .panic m => .panic m
-
-/-- `read_as_string` after `read_to_string`: `retain` non-whitespace, split on `|`, drop empty pieces -/
-def parseText (s : List Char) : Outcome Arr :=
-  parseRecords ((splitOn '|' (s.filter fun c => !isWhitespace c)).filter fun p => !p.isEmpty) #[]
-
-/-- the pieces handed to `write_all` by `write!`: `"|"`, then per node the three numbers, two commas, `"|"` -/
-def nodePieces (nd : Node) : List (List Char) :=
-  [showNat nd.var, [','], showNat nd.low, [','], showNat nd.high, ['|']]
-
-def textPieces (A : Arr) : List (List Char) := ['|'] :: A.toList.flatMap nodePieces
-
-/-- `to_string` / `write_as_string` into a sink that accepts everything -/
-def writeText (A : Arr) : List Char := (textPieces A).flatten
-
-/-! ## UTF-8 (`String::from_utf8` as used by `read_to_string`; `str::as_bytes`) -/
-
-def isCont (b : Nat) : Bool := 0x80 ≤ b && b ≤ 0xBF
-
-/-- well-formed UTF-8 byte sequences (Unicode Table 3-7), over byte values -/
-def utf8DecNat : List Nat → Option (List Char)
-  | [] => some []
-  | b0 :: rest =>
-    if b0 < 0x80 then (utf8DecNat rest).map (Char.ofNat b0 :: ·)
-    else if 0xC2 ≤ b0 ∧ b0 ≤ 0xDF then
-      match rest with
-      | b1 :: r1 =>
-        if isCont b1 then (utf8DecNat r1).map (Char.ofNat ((b0 - 0xC0) * 64 + (b1 - 0x80)) :: ·) else none
-      | _ => none
-    else if 0xE0 ≤ b0 ∧ b0 ≤ 0xEF then
-      match rest with
-      | b1 :: b2 :: r2 =>
-        if isCont b1 && isCont b2 && (b0 != 0xE0 || 0xA0 ≤ b1) && (b0 != 0xED || b1 ≤ 0x9F) then
-          (utf8DecNat r2).map (Char.ofNat ((b0 - 0xE0) * 4096 + (b1 - 0x80) * 64 + (b2 - 0x80)) :: ·)
-        else none
-      | _ => none
-    else if 0xF0 ≤ b0 ∧ b0 ≤ 0xF4 then
-      match rest with
-      | b1 :: b2 :: b3 :: r3 =>
-        if isCont b1 && isCont b2 && isCont b3 && (b0 != 0xF0 || 0x90 ≤ b1) && (b0 != 0xF4 || b1 ≤ 0x8F) then
-          (utf8DecNat r3).map
-            (Char.ofNat ((b0 - 0xF0) * 262144 + (b1 - 0x80) * 4096 + (b2 - 0x80) * 64 + (b3 - 0x80)) :: ·)
-        else none
-      | _ => none
-    else none
-termination_by l => l.length
-decreasing_by all_goals (simp_wf; try omega)
-
-def utf8Decode (bs : List UInt8) : Option (List Char) := utf8DecNat (bs.map (·.toNat))
-
-def utf8EncChar (c : Char) : List Nat :=
-  let n := c.toNat
-  if n < 0x80 then [n]
-  else if n < 0x800 then [0xC0 + n / 64, 0x80 + n % 64]
-  else if n < 0x10000 then [0xE0 + n / 4096, 0x80 + n / 64 % 64, 0x80 + n % 64]
-  else [0xF0 + n / 262144, 0x80 + n / 4096 % 64, 0x80 + n / 64 % 64, 0x80 + n % 64]
-
-def utf8Encode (s : List Char) : List UInt8 := (s.flatMap utf8EncChar).map (·.toUInt8)
-
-/-- `read_as_string` on a reader that delivers `bytes` and then end of input -/
-def readText (bytes : List UInt8) : Outcome Arr :=
-  match utf8Decode bytes with
-  | none => .err "stream did not contain valid UTF-8"
-  | some s => parseText s
-
 /-! ## Binary format -/
-
-/-- `to_le_bytes` of an unsigned integer of `w` bytes -/
-def leBytes : Nat → Nat → List UInt8
-  | 0, _ => []
-  | w + 1, x => (x % 256).toUInt8 :: leBytes w (x / 256)
-
-/-- `from_le_bytes` -/
-def leVal : List UInt8 → Nat
-  | [] => 0
-  | b :: bs => b.toNat + 256 * leVal bs
 
 /-- (offset, width) of field `i` (0 = var, 1 = low link, 2 = high link) in the regenerated layout -/
 def fieldAt (i : Nat) : Nat × Nat := Gen.fieldLayout.getD i (0, 0)
@@ -219,8 +28,6 @@ def nodeBytePieces (nd : Node) : List (List UInt8) :=
 
 def encodeNode (nd : Node) : List UInt8 := (nodeBytePieces nd).flatten
 
-def slice (buf : List UInt8) (ow : Nat × Nat) : List UInt8 := (buf.drop ow.1).take ow.2
-
 /-- the `mk_node(from_le_bytes([buf[0], buf[1]]), …)` of `read_as_bytes` on a full record buffer -/
 def decodeNode (buf : List UInt8) : Node :=
   ⟨leVal (slice buf (fieldAt 0)), leVal (slice buf (fieldAt 1)), leVal (slice buf (fieldAt 2))⟩
@@ -230,89 +37,9 @@ def bytePieces (A : Arr) : List (List UInt8) := A.toList.flatMap nodeBytePieces
 /-- `to_bytes` -/
 def writeBytes (A : Arr) : List UInt8 := (bytePieces A).flatten
 
-/-! ## Scripted I/O environment -/
-
-/-- one call of `read`/`write`: transfer at most `k` bytes, fail with `ErrorKind::Interrupted`, or fail
-    with another error kind. An exhausted script transfers everything that is asked for. -/
-inductive Ev where
-  | give (k : Nat)
-  | interrupted
-  | fail
-deriving DecidableEq, Repr, Inhabited
-
-structure Reader where
-  data : List UInt8
-  script : List Ev
-deriving Repr
-
-inductive ReadRes where
-  | bytes (bs : List UInt8)
-  | interrupted
-  | failed
-deriving Repr
-
-/-- `Read::read(&mut buf)` with `buf.len() = want` -/
-def Reader.read (r : Reader) (want : Nat) : ReadRes × Reader :=
-  match r.script with
-  | [] => (.bytes (r.data.take want), ⟨r.data.drop want, []⟩)
-  | .give k :: s => (.bytes (r.data.take (min k want)), ⟨r.data.drop (min k want), s⟩)
-  | .interrupted :: s => (.interrupted, ⟨r.data, s⟩)
-  | .fail :: s => (.failed, ⟨r.data, s⟩)
-
-theorem Reader.read_bytes {r r' : Reader} {want : Nat} {bs} (h : r.read want = (.bytes bs, r')) :
-    bs.length ≤ want ∧ r'.script.length ≤ r.script.length ∧ r'.data.length + bs.length = r.data.length := by
-  unfold Reader.read at h
-  split at h <;> simp only [Prod.mk.injEq, ReadRes.bytes.injEq, reduceCtorEq, false_and] at h
-  · obtain ⟨rfl, rfl⟩ := h
-    rename_i hs
-    refine ⟨?_, ?_, ?_⟩ <;> simp [hs] <;> omega
-  · obtain ⟨rfl, rfl⟩ := h
-    rename_i hs
-    refine ⟨?_, ?_, ?_⟩ <;> simp [hs] <;> omega
-
-theorem Reader.read_interrupted {r r' : Reader} {want : Nat} (h : r.read want = (.interrupted, r')) :
-    r'.script.length < r.script.length ∧ r'.data = r.data := by
-  unfold Reader.read at h
-  split at h <;> simp only [Prod.mk.injEq, reduceCtorEq, false_and, true_and] at h
-  subst h
-  rename_i hs; simp [hs]
-
-inductive ExactRes where
-  | ok (bs : List UInt8)
-  | eof
-  | failed
-deriving Repr
-
-/-- `Read::read_exact` (default implementation): retry on `Interrupted`, `Ok(0)` = `UnexpectedEof`,
-    other errors returned -/
-def readExact (r : Reader) (need : Nat) (acc : List UInt8) : ExactRes × Reader :=
-  if need = 0 then (.ok acc, r) else
-  match h : r.read need with
-  | (.bytes bs, r') =>
-    if _hz : bs.length = 0 then (.eof, r') else readExact r' (need - bs.length) (acc ++ bs)
-  | (.interrupted, r') => readExact r' need acc
-  | (.failed, r') => (.failed, r')
-termination_by need + r.script.length
-decreasing_by
-  · have := Reader.read_bytes h; omega
-  · have := Reader.read_interrupted h; omega
-
 /-- `Gen.recordLen` is positive (otherwise `read_as_bytes` would never reach the end of input) -/
 theorem recordLen_pos : 0 < Gen.recordLen := by decide
 
-theorem readExact_progress {r r' : Reader} {need : Nat} {acc bs}
-    (h : readExact r need acc = (.ok bs, r')) : r'.data.length + need ≤ r.data.length ∧
-      r'.script.length ≤ r.script.length := by
-  fun_induction readExact r need acc with
-  | case1 r acc => simp at h; obtain ⟨_, rfl⟩ := h; simp
-  | case2 r need acc hn bs0 r0 hr hz => simp at h
-  | case3 r need acc hn bs0 r0 hr hz ih =>
-    have := Reader.read_bytes hr
-    have := ih h; omega
-  | case4 r need acc hn r0 hr ih =>
-    have h1 := Reader.read_interrupted hr
-    have h2 := ih h; rw [h1.2] at h2; omega
-  | case5 r need acc hn r0 hr => simp at h
 
 /-- `read_as_bytes`: records until `read_exact` reports `UnexpectedEof` (a trailing partial record is
     dropped silently); any other error is returned. The Boolean tells whether the result is `Ok`. -/
@@ -330,215 +57,8 @@ decreasing_by
 /-- `from_bytes` / `read_as_bytes` on a reader that delivers `bytes` and then end of input -/
 def readBytes (bytes : List UInt8) : Outcome Arr := (readBytesIO ⟨bytes, []⟩ #[]).1
 
-/-- `read_to_end` (as used by `read_to_string`): repeated `read` into buffers whose sizes `wants` are chosen
-    by std's growth heuristics (an environment parameter here; `32` once the list is exhausted); retry on
-    `Interrupted`, `Ok(0)` = end of input, other errors returned. -/
-def readToEnd (r : Reader) (wants : List Nat) (acc : List UInt8) : Option (List UInt8) × Reader :=
-  match h : r.read (wants.headD 32) with
-  | (.bytes bs, r') =>
-    if _hz : bs.length = 0 then (some acc, r') else readToEnd r' wants.tail (acc ++ bs)
-  | (.interrupted, r') => readToEnd r' wants.tail acc
-  | (.failed, r') => (none, r')
-termination_by r.data.length + r.script.length
-decreasing_by
-  · have := Reader.read_bytes h; omega
-  · obtain ⟨h1, h2⟩ := Reader.read_interrupted h; rw [h2]; omega
-
-/-- `read_as_string(input)` -/
-def readTextIO (r : Reader) (wants : List Nat) : Outcome Arr × Reader :=
-  match readToEnd r wants [] with
-  | (none, r') => (.err "io error", r')
-  | (some bytes, r') => (readText bytes, r')
-
-inductive WriteRes where
-  | accepted (n : Nat)
-  | interrupted
-  | failed
-deriving Repr
-
-/-- `Write::write(buf)`: result, the bytes that reached the sink, the remaining script -/
-def sWrite (script : List Ev) (buf : List UInt8) : WriteRes × List UInt8 × List Ev :=
-  match script with
-  | [] => (.accepted buf.length, buf, [])
-  | .give k :: s => (.accepted (min k buf.length), buf.take (min k buf.length), s)
-  | .interrupted :: s => (.interrupted, [], s)
-  | .fail :: s => (.failed, [], s)
-
-/-- `Write::write_all`: retry on `Interrupted`, `Ok(0)` = `WriteZero` error, other errors returned;
-    (ok?, bytes that reached the sink, remaining script) -/
-def writeAll (script : List Ev) (buf : List UInt8) : Bool × List UInt8 × List Ev :=
-  if buf.length = 0 then (true, [], script) else
-  match script with
-  | [] => (true, buf, [])
-  | .give k :: s =>
-    if min k buf.length = 0 then (false, [], s) else
-    let (ok, out, s') := writeAll s (buf.drop (min k buf.length))
-    (ok, buf.take (min k buf.length) ++ out, s')
-  | .interrupted :: s => writeAll s buf
-  | .fail :: s => (false, [], s)
-termination_by script.length
-
-/-- a sequence of `write_all` calls, each followed by `?` -/
-def writePieces (script : List Ev) : List (List UInt8) → Bool × List UInt8 × List Ev
-  | [] => (true, [], script)
-  | p :: ps =>
-    match writeAll script p with
-    | (false, out, s') => (false, out, s')
-    | (true, out, s') =>
-      let (ok, out', s'') := writePieces s' ps
-      (ok, out ++ out', s'')
-
-/-- ASCII text as bytes (`str::as_bytes` of the formatted pieces, which are ASCII) -/
-def asciiBytes (s : List Char) : List UInt8 := s.map fun c => c.toNat.toUInt8
-
-/-- `write_as_string(output)` -/
-def writeTextIO (A : Arr) (script : List Ev) : Bool × List UInt8 × List Ev :=
-  writePieces script ((textPieces A).map asciiBytes)
-
 /-- `write_as_bytes(output)` -/
 def writeBytesIO (A : Arr) (script : List Ev) : Bool × List UInt8 × List Ev :=
   writePieces script (bytePieces A)
-
-/-! ## `to_nodes` / `from_nodes` -/
-
-def toNodes (A : Arr) : Arr := A
-
-/-- `BddNode::is_terminal`, `is_zero`, `is_one` -/
-def isTerminalNode (nd : Node) : Bool := nd.low == nd.high && (nd.low == 1 || nd.low == 0)
-def isZeroNode (nd : Node) : Bool := isTerminalNode nd && nd.low == 0
-def isOneNode (nd : Node) : Bool := isTerminalNode nd && nd.low == 1
-
-/-- the `for node in data.iter().skip(2)` loop of `from_nodes` -/
-def fromNodesLoop (d : Arr) (numVars : Nat) : List Node → Outcome Unit
-  | [] => .ok ()
-  | nd :: rest =>
-    if nd.var ≥ numVars then .err "Invalid variable" else
-    if nd.low ≥ d.size then .err "Invalid low-link" else
-    if nd.high ≥ d.size then .err "Invalid high-link" else
-    match aidx d nd.low with
-    | .panic m => .panic m
-    | .err m => .err m
-    | .ok lc =>
-      if lc.var ≤ nd.var then .err "Low link breaks ordering" else
-      match aidx d nd.high with
-      | .panic m => .panic m
-      | .err m => .err m
-      | .ok hc =>
-        if hc.var ≤ nd.var then .err "High link breaks ordering" else
-        fromNodesLoop d numVars rest
-
-/-- `Bdd::from_nodes(data)` -/
-def fromNodes (d : Arr) : Outcome Arr :=
-  if d.size = 0 then .err "No nodes" else
-  match aidx d 0 with
-  | .panic m => .panic m
-  | .err m => .err m
-  | .ok n0 =>
-    if !isZeroNode n0 then .err "Node at position 0 must be the zero literal." else
-    match (if d.size > 1 then aidx d 1 else .ok n0) with
-    | .panic m => .panic m
-    | .err m => .err m
-    | .ok n1 =>
-      if d.size > 1 && !isOneNode n1 then .err "Node at position 1 must be the one literal" else
-      if d.size > 1 && n1.var != n0.var then .err "Terminal nodes must use the same variable." else
-      match fromNodesLoop d n0.var (d.toList.drop 2) with
-      | .panic m => .panic m
-      | .err m => .err m
-      | .ok () => .ok d
-
-/-! ## `validate` -/
-
-/-- the `while let Some(top) = stack.pop()` loop; head of the list = top of the stack; `none` = fuel
-    exhausted (the loop of the Rust code has no bound of its own) -/
-def dfs (A : Arr) : Nat → List Nat → Array Bool → Option (Outcome (Array Bool))
-  | _, [], vis => some (.ok vis)
-  | 0, _ :: _, _ => none
-  | fuel + 1, top :: stack, vis =>
-    match aidx vis top with
-    | .panic m => some (.panic m)
-    | .err m => some (.err m)
-    | .ok true => dfs A fuel stack vis
-    | .ok false =>
-      match aidx A top with
-      | .panic m => some (.panic m)
-      | .err m => some (.err m)
-      | .ok node =>
-        match aidx A node.low with
-        | .panic m => some (.panic m)
-        | .err m => some (.err m)
-        | .ok lc =>
-          match aidx A node.high with
-          | .panic m => some (.panic m)
-          | .err m => some (.err m)
-          | .ok hc =>
-            if lc.var ≤ node.var || hc.var ≤ node.var then some (.err "Found broken child ordering")
-            else dfs A fuel (node.high :: node.low :: stack) (vis.setIfInBounds top true)
-
-/-- the range checks `for node_pointer in self.pointers().skip(2)` -/
-def rangeLoop (size numVars : Nat) : List Node → Outcome Unit
-  | [] => .ok ()
-  | nd :: rest =>
-    if nd.var ≥ numVars then .err "Found invalid variable" else
-    if nd.low ≥ size then .err "Found invalid low-link" else
-    if nd.high ≥ size then .err "Found invalid high-link" else
-    rangeLoop size numVars rest
-
-/-- fuel given to the DFS of `validate`: every iteration pops one entry and at most `size - 2` iterations
-    push two -/
-def dfsFuel (A : Arr) : Nat := 2 * A.size + 1
-
-/-- `Bdd::validate()`; `none` = does not terminate within the fuel -/
-def validate (A : Arr) : Option (Outcome Unit) :=
-  if A.size = 0 then some (.err "No nodes") else
-  match aidx A 0 with          -- `self.num_vars()` = `self.0[0].var`
-  | .panic m => some (.panic m)
-  | .err m => some (.err m)
-  | .ok n0 =>
-    if A.size = 1 then
-      (if A != #[⟨n0.var, 0, 0⟩] then some (.err "Malformed false BDD.") else some (.ok ()))
-    else if A.size = 2 then
-      (if A != #[⟨n0.var, 0, 0⟩, ⟨n0.var, 1, 1⟩] then some (.err "Malformed true BDD.") else some (.ok ()))
-    else
-    match aidx A 1 with
-    | .panic m => some (.panic m)
-    | .err m => some (.err m)
-    | .ok n1 =>
-      if n0 != ⟨n0.var, 0, 0⟩ || n1 != ⟨n0.var, 1, 1⟩ then some (.err "Malformed terminal nodes.") else
-      match rangeLoop A.size n0.var (A.toList.drop 2) with
-      | .panic m => some (.panic m)
-      | .err m => some (.err m)
-      | .ok () =>
-        -- `visited[0] = true; visited[1] = true;` are in range because the size is at least 3 here
-        if A.size < 2 then some (.panic "index out of bounds") else
-        let vis := ((Array.replicate A.size false).setIfInBounds 0 true).setIfInBounds 1 true
-        match dfs A (dfsFuel A) [A.size - 1] vis with
-        | none => none
-        | some (.panic m) => some (.panic m)
-        | some (.err m) => some (.err m)
-        | some (.ok vis') =>
-          if vis'.all id then some (.ok ()) else some (.err "BDD has unreachable nodes.")
-
-/-! ## `eval_in` -/
-
-/-- the `while !node.is_terminal()` loop of `eval_in`; `none` = fuel exhausted -/
-def evalLoop (A : Arr) (val : Array Bool) : Nat → Nat → Option (Outcome Bool)
-  | _, 0 => some (.ok false)
-  | _, 1 => some (.ok true)
-  | 0, _ + 2 => none
-  | fuel + 1, p + 2 =>
-    match aidx A (p + 2) with
-    | .panic m => some (.panic m)
-    | .err m => some (.err m)
-    | .ok nd =>
-      match aidx val nd.var with
-      | .panic m => some (.panic m)
-      | .err m => some (.err m)
-      | .ok b => evalLoop A val fuel (if b then nd.high else nd.low)
-
-/-- `Bdd::eval_in(valuation)` with an explicit fuel (release build: the `debug_assert` is absent);
-    the root pointer of an empty node vector does not exist (`len() - 1` underflows) -/
-def evalIn (A : Arr) (val : Array Bool) (fuel : Nat) : Option (Outcome Bool) :=
-  if A.size = 0 then some (.panic "attempt to subtract with overflow") else
-  evalLoop A val fuel (A.size - 1)
 
 end B.Serial
